@@ -56,6 +56,13 @@ def service_case(draw, auto):
     if dst >= src:
         dst += 1
     modes = trx[0]['mode']
+    if auto and cd_cut is None and len(modes) >= 2 and draw(st.integers(0, 2)) == 0:
+        # the mode explored first carries a penalty table that no real path fits (CD beyond 10 ps/nm is outside), the others
+        # carry none: what was evaluated for one mode must not stick to the next one
+        first = max(modes, key=lambda m: (m['baud_rate'], m['bit_rate'], m.get('equalization_offset_db') or 0))
+        for m in modes:
+            m.pop('penalties', None)
+        first['penalties'] = [{'chromatic_dispersion': 0, 'penalty_value': 0}, {'chromatic_dispersion': 10, 'penalty_value': 0.5}]
     # distance of each mode's threshold from the achievable metric: never within 0.05 dB (ties are not judged)
     rel = [round(draw(st.sampled_from([-1, 1])) * draw(st.one_of(st.floats(0.05, 3), st.floats(0.05, 10))), 2)
            for _ in modes]
